@@ -66,6 +66,14 @@ def systematic():
     out.append(("call:mutual-defaults", ("apply", g, [], [], False)))
     out.append(("call:mutual-defaults-one", ("apply", g, [N(1)], [], False)))
     out.append(("call:nonfunction", ("apply", N(1), [], [], False)))
+    # the same object value used as a layer more than once in one chain (a mixin applied twice): caches keyed per
+    # object instead of per (object, layer) show up here as a wrong `super`
+    from . import c02
+    import random as _random
+    reuse = [sp for sp in c02.chains("quick", _random.Random(7)) if len(sp) > 3]
+    for i, sp in enumerate(reuse[::max(1, len(reuse) // 400)]):
+        binds, chain = c02.build(sp)
+        out.append(("mixin-reuse:%d" % i, ("local", binds, chain) if binds else chain))
     # locals / closures / shadowing / recursion
     out.append(("local:dup", ("local", [("bind", "a", N(1)), ("bind", "a", N(2))], V("a"))))
     out.append(("fn:dup-param", ("apply", ("fn", [("a", None), ("a", None)], V("a")), [N(1), N(2)], [], False)))
